@@ -18,7 +18,7 @@ use std::time::Duration;
 pub enum Entry {
     /// a block of `len` bytes derived from `data` (small domain, so equal data recurs), listed under: 0 CIDv1 raw sha2-256,
     /// 1 CIDv0, 2 CIDv1 dag-pb sha2-256, 3 CIDv1 raw blake2b-256, 4 CIDv1 dag-cbor sha2-256
-    Block { data: u8, len: u16, form: u8 },
+    Block { data: u8, len: u32, form: u8 },
     Presence { data: u8, have: bool },
 }
 
@@ -30,7 +30,7 @@ pub struct Case {
 
 pub fn strategy() -> impl Strategy<Value = Case> {
     let entry = prop_oneof![
-        8 => (0u8..4, prop_oneof![Just(0u16), Just(1), Just(33), Just(700), Just(20_000)], 0u8..5).prop_map(|(data, len, form)| Entry::Block { data, len, form }),
+        8 => (0u8..4, prop_oneof![3 => Just(0u32), 3 => Just(1), 3 => Just(33), 3 => Just(700), 3 => Just(20_000), 2 => Just(900_000), 1 => Just(1_200_000)], 0u8..5).prop_map(|(data, len, form)| Entry::Block { data, len, form }),
         2 => (0u8..4, any::<bool>()).prop_map(|(data, have)| Entry::Presence { data, have }),
     ];
     (any::<u64>(), prop::collection::vec(prop::collection::vec(entry, 1..8), 1..3)).prop_map(|(seed, responses)| Case { seed, responses })
@@ -66,14 +66,19 @@ pub fn run_case(c: &Case) -> CaseResult {
     }
     let mut same_hash_twice = false;
     let mut same_cid_twice = false;
+    let mut several_batches = false;
     for (k, response) in c.responses.iter().enumerate() {
         let mut want_blocks: Vec<(Vec<u8>, Vec<u8>)> = Vec::new();
         let mut want_presences: Vec<(Vec<u8>, bool)> = Vec::new();
         let mut entries = Vec::new();
+        let mut total = 0usize;
         for e in response {
             match e {
                 Entry::Block { data, len, form } => {
-                    let bytes = fill_bytes(*data as u64 + 77, *len as usize);
+                    // several batches (more than 2 MiB per response) are wanted, unbounded responses are not
+                    let len = if total + *len as usize > 7 << 20 { 33 } else { *len as usize };
+                    total += len;
+                    let bytes = fill_bytes(*data as u64 + 77, len);
                     let cid = cid_of(&bytes, *form);
                     same_cid_twice |= want_blocks.iter().any(|(c, _)| *c == cid.to_bytes());
                     same_hash_twice |= want_blocks.iter().any(|(c, _)| Cid::try_from(&c[..]).map(|o| o.hash() == cid.hash() && o != cid).unwrap_or(false));
@@ -87,6 +92,7 @@ pub fn run_case(c: &Case) -> CaseResult {
                 }
             }
         }
+        several_batches |= total > 2 << 20;
         let mark = log.lock().len();
         sender.send(Cmd::BitswapRespond { peer: p0, entries });
         let got = |l: &[Obs]| {
@@ -102,7 +108,7 @@ pub fn run_case(c: &Case) -> CaseResult {
             }
             (blocks, presences)
         };
-        wait_until(&log, Duration::from_millis(2500), |l| {
+        wait_until(&log, Duration::from_millis(if total > 1 << 20 { 8000 } else { 2500 }), |l| {
             let (b, p) = got(l);
             b.len() >= want_blocks.len() && p.len() >= want_presences.len()
         });
@@ -130,6 +136,7 @@ pub fn run_case(c: &Case) -> CaseResult {
         fail!(format!("C20/panic@{}", p.location), "{} (thread {})", p.message, p.thread);
     }
     Ok(CaseOk::nontrivial()
+        .class_if(several_batches, "response-of-more-than-one-batch")
         .class_if(same_hash_twice, "same-data-under-two-identifiers-in-one-response")
         .class_if(same_cid_twice, "same-identifier-twice-in-one-response")
         .class_if(c.responses.iter().flatten().any(|e| matches!(e, Entry::Presence { .. })), "presences-between-blocks"))
